@@ -186,6 +186,10 @@ def check_c05(pid, tier, t0, replay_key):
     findings += ft9
     obl += ot9
     st1.update(stt9)
+    ft11, ot11, stt11 = e5.rule_t11(P)
+    findings += ft11
+    obl += ot11
+    st1.update(stt11)
     measured = {"functions_scanned": st3["functions_scanned"], "discard_sites": st3["discard_sites"],
                 "merge_list": len(st1["merge_list"]), "has_arms": st1["has_arms"], "bytes_for_arms": st1["bytes_for_arms"],
                 "count_fields_checked": st1["count_fields_checked"]}
@@ -196,7 +200,7 @@ def check_c05(pid, tier, t0, replay_key):
     if tier == "thorough":
         st["selftest"] = run_selftest(pid)
     explanation = (
-        "Decides structural necessary conditions of C05 from MIR of the current tree: (E3)/(T1)/(T2) below, plus (T3) a table builder's is_empty verdict is taken after its last write, (T4) every output field that receives a feature-code name id is remapped (a name id in range), (T6) axis indices come from the variable axes only (all_source_axes is read by front ends alone), (T9) every Post::new_v2 call in the backend is dominated by an examined length check of the glyph names (write-fonts writes `len as u8` plus all bytes: a 300-byte name gave an unreadable post table with exit 0; repaired). (E3) No serialisation/compile error is dropped on the way "
+        "Decides structural necessary conditions of C05 from MIR of the current tree: (E3)/(T1)/(T2) below, plus (T3) a table builder's is_empty verdict is taken after its last write, (T4) every output field that receives a feature-code name id is remapped (a name id in range), (T6) axis indices come from the variable axes only (all_source_axes is read by front ends alone), (T11) glyph ids and counts come from the final glyph order only (the preliminary order is touched by front ends, the glyph-order job, the scheduler and context plumbing alone), (T9) every Post::new_v2 call in the backend is dominated by an examined length check of the glyph names (write-fonts writes `len as u8` plus all bytes: a 300-byte name gave an unreadable post table with exit 0; repaired). (E3) No serialisation/compile error is dropped on the way "
         "to the font: every Result<_, E> with a tracked error type (all workspace types implementing std::error::Error, write-fonts/read-fonts errors, "
         "io::Error, ...) in every function reachable from fontc::run / generate_font / main is propagated, inspected or unwrapped; type-resolved "
         "discard idioms (Result::ok/unwrap_or*/is_ok/is_err/map_or/iter on such a Result, a Result dropped unused, a match that never reads the Err "
